@@ -29,6 +29,8 @@ CLAIMED = {
          "Spec functions are hand transcriptions of the two protocol documents (no reference implementation offline). Trusted: io / bytes / bufio / encoding-binary functions as documented."),
  "C20": ("The fourteen exported wrappers return exactly the byte-wise definition applied to their own arguments (all bytes < 0x80; all bytes in 0x20-0x7e; equal length and equal after folding only A-Z; prefix/suffix by length and window) given the dependency's functions satisfy those definitions.",
          "The dependency github.com/segmentio/asm/ascii (pure-Go fallback and amd64 assembly) is assumed to satisfy the byte-wise definitions; it is not verified here."),
+ "C17": ("Partial, per call: Tokenizer.Next under the representation invariant tokInv (scope stack well formed and separate from the tokenizer and from the input), which Reset establishes and every successful Next re-establishes: no panic for any input; once Err is set Next returns false and changes nothing; a successful Next returns a non-empty Value that is a window of the input ending exactly where the remaining input begins (strict progress); Delim is set exactly for the six delimiter bytes; Kind follows the first byte of the token; for scalars Depth/Index/IsKey equal the stack depth, the top sibling counter minus one and the pending-key flag; '{'/'[' push one level, '}'/']' pop one level of the matching type and clear the pending key, ',' increments the sibling counter and re-arms the key flag inside objects, ':' clears it; Next writes only the tokenizer, its scope stack or memory that did not exist before the call (frame obligations), which with tokInv excludes the input bytes (lemma). Stack methods, Kind/Remaining and the RawValue class predicates equal their definitions.",
+         "Not under contract: the closed statement about whole token streams (concatenation equals the compacted document; agreement with encoding/json's token stream) - an induction over calls that is argued from the per-call contract, not proved; Int/Uint/Float/String value accessors beyond parseInt/parseUint (C02); stack.push's append and the sync.Pool (trusted contracts, stated); the type and counter of the freshly pushed entry as seen after Next returns. Trusted: the tokenizer's memory is only reached through the receiver inside Next (unpacked receiver)."),
  "C19": ("Partial: seen-field bitmap sizing and indexing (makeFieldset/has/set), MessageRewriter.Rewrite panic-freedom and termination for every rewriter length and every field number the wire allows, Parse's field windows, EncodeTag/DecodeTag inverse.",
          "Not under contract: JSON template compilation (parseRewriteTemplate*, reflection + json), embddedRewriter splice, Append layout; Rewriter implementations called through the interface are havoc."),
 }
@@ -44,7 +46,6 @@ NOT_YET = {
  "C11": "not built yet (json.Decoder framing)",
  "C14": "not built yet (json flags)",
  "C15": "not built yet (json.Append prefix/capacity obliviousness)",
- "C17": "not built yet (json.Tokenizer)",
 }
 
 def hook_commits():
